@@ -32,5 +32,13 @@ if __name__=="__main__":
      "nobs-ncells": ("C14","mellon/time_sensitive_density_estimator.py","log_density_func.n_obs = compute_average_cell_count(x, normalize)","log_density_func.n_obs = x.shape[0]"),
      "nobs-avg-ncells": ("C14","mellon/parameters.py","        return n_cells / n_unique_times\n","        return n_cells\n"),
     }
+    DE="mellon/density_estimator.py"
+    M.update({
+     "mu-before-d": ("C18",DE,'        self._prepare_attribute("d")\n        self._prepare_attribute("mu")\n','        self._prepare_attribute("mu")\n        self._prepare_attribute("d")\n'),
+     "recompute": ("C18","mellon/base_model.py","        if getattr(self, attribute) is not None:\n            return\n","        if getattr(self, attribute) is not None:\n            pass\n"),
+     "fp-no-guard": ("C18",DE,"        if self.x is not None and x is not None and self.x is not x:","        if False:"),
+     "stale-predict": ("C18",DE,"        if build_predict:\n            self._set_log_density_func()","        if build_predict and self.log_density_func is None:\n            self._set_log_density_func()"),
+     "read-later": ("C18",DE,"    def _compute_mu(self):\n        nn_distances = self.nn_distances\n","    def _compute_mu(self):\n        ls = self.ls\n        nn_distances = self.nn_distances\n"),
+    })
     for w in which:
         run(M[w][0], w, *M[w][1:])
